@@ -75,7 +75,8 @@ STR_ANN = {'A1': 81, 'free text !': 82}
 
 
 # annotation ids whose TEXT is an expression that raises when a postponed annotation is evaluated
-ANN_TEXT = {91: 'A1.no_such_attribute', 92: "(1)['x']", 93: 'Name_not_defined_anywhere'}
+ANN_TEXT = {91: 'A1.no_such_attribute', 92: "(1)['x']", 93: 'Name_not_defined_anywhere',
+            94: 'NANV', 95: 'WEIRD'}       # names bound (by the caller) to values with an unusual ==: NaN, an object whose __eq__ answers with a string
 
 
 def render_params(ps, annotations=True):
